@@ -123,6 +123,7 @@ EXTRA = {
     'convert_content_block': {'proof': ['reveal_strlit("["); reveal_strlit("]"); assert("["@ =~= seq![\'[\']); assert("]"@ =~= seq![\']\']);', 'pf_markup_container({n}); let ghost ch = {n}.children_s(); pf_children({n}); pf_sig(ch[0]); pf_sig(ch[2]); pf_token_text(ch[0]); pf_token_text(ch[2]); reveal_with_fuel(sig_concat, 4); assert(ch.drop_last().drop_last().drop_last() =~= Seq::<&SyntaxNode>::empty()); assert(sig_concat(ch) =~= sig_leaves(ch[0]) + sig_leaves(ch[1]) + sig_leaves(ch[2])); lemma_w_algebra();']},
     'convert_ref': {'proof': ['reveal_strlit("@"); reveal_with_fuel(pieces, 4);'], 'ensures': ['[target_exact C10] pieces(r@).len() >= 2 && pieces(r@)[0] == txt("@"@) && pieces(r@)[1] == txt(ast::Ref({n}).target_s())'], 'serves': 'C10'},
     'convert_dot_chain': {'requires': ['[only_for_field_accesses_and_calls] {n}.kind_s() == SyntaxKind::FieldAccess || {n}.kind_s() == SyntaxKind::FuncCall']},
+    'convert_field_access_plain': {'proof': ['reveal_strlit("."); lemma_w_algebra(); if !has_comment_child({n}.children_s()) { lemma_field_access_words({n}); pf_unmarked(self.store_s(), {n}); pf_sig({n}.children_s()[field_idx_s({n})]); assert("."@ =~= seq![\'.\']); }']},
     'convert_expr_flow': {'requires': ['{n}.kind_s() != SyntaxKind::Markup', '[only_for_keyword_expression_nodes] matches!({n}.kind_s(), SyntaxKind::Contextual | SyntaxKind::Conditional | SyntaxKind::WhileLoop | SyntaxKind::FuncReturn | SyntaxKind::ModuleInclude)']},
     'convert_list_item_like': {'requires': ['matches!({n}.kind_s(), SyntaxKind::ListItem | SyntaxKind::EnumItem | SyntaxKind::TermItem)']},
     'convert_binary': {'proof': ['reveal_strlit("("); reveal_strlit(")"); lemma_optional_paren_words_all(self.unit_s(), "("@, ")"@);'], 'closures': ['@closure 0 ret "(d: ArenaDoc<\'a>)"', '  ensures', '    - doc_closed(d@, self.unit_s())',
@@ -196,7 +197,7 @@ W_PROVED = {
     'convert_contextual', 'convert_conditional', 'convert_while_loop', 'convert_return', 'convert_include',
     'convert_list_item', 'convert_enum_item', 'convert_term_item',
     # leaves and dispatchers
-    'convert_dot_chain',
+    'convert_dot_chain', 'convert_field_access_plain',
     'convert_text', 'convert_space', 'convert_parbreak', 'convert_ident', 'convert_expr', 'convert_expr_impl', 'convert_pattern', 'convert_array_item', 'convert_dict_item',
     'convert_param', 'convert_destructuring_item',
     # list-based (through the list engine)
